@@ -1,18 +1,18 @@
 CONSTANTS
-  Fix = "vars"
+  Fix = "none"
   N = 3
   Shared = {"x","y"}
   Locals = {"v"}
   Pairs <- PAll
   Tcp = TRUE
-  MaxAtt = 12
-  MaxPer = 4
-  MaxOps = 4
-  MaxChain = 4
+  MaxAtt = 7
+  MaxPer = 3
+  MaxOps = 3
+  MaxChain = 3
   Aborts = TRUE
   SendLast = FALSE
   Record = TRUE
-  OnlyBad = FALSE
+  OnlyBad = TRUE
 INIT Init
 NEXT Next
 CHECK_DEADLOCK FALSE
